@@ -11,6 +11,12 @@ import z3
 PROVED, REFUTED, UNKNOWN = "proved", "refuted", "unknown"
 
 
+def _has_q(e):
+    if z3.is_quantifier(e):
+        return True
+    return any(_has_q(c) for c in e.children())
+
+
 def _has_strings(fs):
     txt = " ".join(str(f.sort()) for f in fs[:0])
     return False
@@ -22,6 +28,16 @@ def discharge(ob, timeout_ms=10000, use_cvc5=True):
     g = ob.goal
     if z3.is_true(g):
         return PROVED, "simplify", time.time() - t, None
+    # first attempt: the quantifier-free part of the hypotheses only (dropping hypotheses is sound for PROVED;
+    # a `sat` there means nothing and is ignored) - keeps linear/bit-vector lemmas away from quantified invariants
+    qf = [c for c in ob.pc if not _has_q(c)]
+    if len(qf) != len(ob.pc) or ob.axioms:
+        s0 = z3.Solver()
+        s0.set("timeout", min(3000, timeout_ms))
+        s0.add(*qf)
+        s0.add(z3.Not(g))
+        if s0.check() == z3.unsat:
+            return PROVED, "z3", time.time() - t, None
     s = z3.Solver()
     s.set("timeout", timeout_ms)
     s.add(*ob.pc)
